@@ -13,13 +13,23 @@ PROOF_TARGETS = ["C11/Lemmas.vo", "C11/LemmasWrap.vo"]
 PROPS = ["C11/Props.v"]
 ALLOWED_AXIOMS = []
 IMPL_TIMEOUT = 10.0
-COQ_SHARD = 120
+COQ_SHARD = 50
 RULE = ("values built AT the layout thresholds: all-simple dicts and lists whose one-line length makes "
         "offset+len land on every value from limit-6 to limit+6 at nesting offsets 0,2,..,12 (the limits are re-read "
         "from the source); wrapped lists whose running line length lands on wrap_limit-2..wrap_limit+2 for the 2nd, "
         "3rd.. item of a line, items longer than the limit, items of length 1-40; random nestings up to depth 6 with "
         "empty containers, int/str/True/False/None keys (mixed), floats, big and negative ints, non-ASCII strings; "
-        "both modes.  Non-trivial = distinct value whose top level is a non-empty container.")
+        "values in which ONE list/dict object occurs several times ([[0]*3]*3, one defaults dict under several keys, "
+        "one tags list in several records, a wrapped list or a list at the one-line limit at several nesting offsets, "
+        "an object next to an equal distinct copy, random DAGs; the model is given the expanded tree); both modes.  "
+        "Every case is rendered by ONE printer per mode per worker process and consumed in many ways, all of which "
+        "must give the model's lines: a coloured rendering and the other mode's printer first; str() then lines "
+        "converted while iterating; lines collected with list() then converted (str and plain_text); str() after the "
+        "iteration; a second iteration (and the first collection again after it); two no-colour results, a coloured "
+        "one, the other mode's printer and the rendering of [v, {'k': v}] (v itself twice) consumed interleaved line "
+        "by line with the line objects kept; a fresh printer; a result object made first and consumed last; str() "
+        "after the user extended get_ch_text() / sums; the input value unchanged afterwards.  "
+        "Non-trivial = distinct value whose top level is a non-empty container.")
 TRUSTED_BASE = [
     "json.loads / ast.literal_eval interpret the atoms the reader of the theorems leaves opaque: str(int)/str(float) "
     "of a finite number reads back as that number, the JSON/Python literals read back as True/False/None; both lex "
@@ -29,7 +39,9 @@ TRUSTED_BASE = [
     "list branches, the wrap limit (with their comparison operators) and the ranks of _mk_type_sort_value are read "
     "from ak/ppobj.py by harness/props/c11.py:gen_consts (ast, fail-closed)",
     "ak.color CHText / palette with no_color=True: a chunk contributes exactly its text (covered by the "
-    "correspondence check only, through plain_text())",
+    "correspondence check only, through str() of the lines)",
+    "harness/props/c11.py:impl_run drops a view of the lines that is == (Python list-of-str equality) the first view "
+    "before the views are handed to the model; expand() gives the model the tree a value with shared objects stands for",
 ]
 ASSUMPTIONS = [
     "values are nestings of dict, list, str, int, finite float, bool, None; strings and str keys contain no "
@@ -225,7 +237,12 @@ def _limits():
 
 
 # ------------------------------------------------------------------ value encoding (JSON-serialisable)
-def enc(v):
+# A value may contain the same list / dict OBJECT several times (a DAG, never a cycle).  Containers are numbered
+# in the order in which they are completed (post-order); ["r", k] stands for "the k-th completed container, the
+# same object again".  dec() is total: k is taken modulo the number of containers completed so far ([] when there
+# is none), so that every structurally shrunk case is still a case.
+def enc(v, _memo=None):
+    memo = {} if _memo is None else _memo
     if v is None or v is True or v is False:
         return ["k", str(v)]
     if isinstance(v, int):
@@ -234,17 +251,23 @@ def enc(v):
         return ["f", repr(v)]
     if isinstance(v, str):
         return ["s", v]
-    if isinstance(v, list):
-        return ["l", [enc(x) for x in v]]
-    if isinstance(v, dict):
-        return ["d", [[enc(k), enc(x)] for k, x in v.items()]]
+    if isinstance(v, (list, dict)):
+        if id(v) in memo:
+            return ["r", memo[id(v)]]
+        if isinstance(v, list):
+            e = ["l", [enc(x, memo) for x in v]]
+        else:
+            e = ["d", [[enc(k, memo), enc(x, memo)] for k, x in v.items()]]
+        memo[id(v)] = len(memo)
+        return e
     raise TypeError(v)
 
 
 KW = {"True": True, "False": False, "None": None}
 
 
-def dec(e):
+def dec(e, _done=None):
+    done = [] if _done is None else _done
     t, a = e
     if t == "k":
         return KW[a]
@@ -254,11 +277,43 @@ def dec(e):
         return float(a)
     if t == "s":
         return a
+    if t == "r":
+        return done[int(a) % len(done)] if done else []
     if t == "l":
-        return [dec(x) for x in a]
+        v = [dec(x, done) for x in a]
+    elif t == "d":
+        v = {dec(k, done): dec(x, done) for k, x in a}
+    else:
+        raise ValueError(t)
+    done.append(v)
+    return v
+
+
+def expand(e, _done=None):
+    """the encoding of the same value as a tree (what the model, which knows no object identity, is given)"""
+    done = [] if _done is None else _done
+    t, a = e
+    if t == "r":
+        return done[int(a) % len(done)] if done else ["l", []]
+    if t == "l":
+        x = ["l", [expand(y, done) for y in a]]
+    elif t == "d":
+        x = ["d", [[k, expand(y, done)] for k, y in a]]
+    else:
+        return e
+    done.append(x)
+    return x
+
+
+def has_sharing(e):
+    t, a = e
+    if t == "r":
+        return True
+    if t == "l":
+        return any(has_sharing(x) for x in a)
     if t == "d":
-        return {dec(k): dec(x) for k, x in a}
-    raise ValueError(t)
+        return any(has_sharing(x) for _k, x in a)
+    return False
 
 
 # ------------------------------------------------------------------ generators
@@ -461,6 +516,69 @@ def wrapped_list(rng, mode, off, wlim, llim):
     return items
 
 
+def rvalue_dag(rng, depth, json_ok, pool):
+    """random nesting in which a container built earlier may occur again (the same object)"""
+    if pool and rng.random() < 0.25:
+        return rng.choice(pool)
+    if depth <= 0 or rng.random() < 0.25:
+        return rsimple(rng)
+    n = rng.choice([1, 1, 2, 2, 3, 4, 5])
+    if rng.random() < 0.5:
+        v = [rvalue_dag(rng, depth - 1, json_ok, pool) for _ in range(n)]
+    else:
+        v = {k: rvalue_dag(rng, depth - 1, json_ok, pool) for k in rdict_keys(rng, n, json_ok)}
+    pool.append(v)
+    return v
+
+
+def shared_value(rng, mode, dlim, llim, wlim):
+    """a value in which one list / dict object occurs more than once (never inside itself)"""
+    json_ok = mode == "json" or rng.random() < 0.5
+    style = rng.randrange(9)
+    if style == 0:
+        # [[0] * 3] * 3 and relatives
+        inner = rng.choice([[0] * rng.randrange(1, 5), [rsimple(rng) for _ in range(rng.randrange(1, 4))],
+                            {"a": 1}, {"x": [1, 2], "y": None}, [[1], [2, [3]]], [{}], [[]]])
+        return [inner] * rng.randrange(2, 6)
+    if style == 1:
+        # one defaults dict stored under several keys
+        dflt = {k: rsimple(rng) for k in rdict_keys(rng, rng.randrange(1, 5), json_ok)}
+        if rng.random() < 0.4:
+            dflt["nested"] = [1, [2]]
+        keys = rdict_keys(rng, rng.randrange(2, 6), json_ok)
+        return {k: (dflt if rng.random() < 0.7 else rsimple(rng)) for k in keys} if len(keys) > 1 else [dflt, dflt]
+    if style == 2:
+        # one tags list shared by several records
+        tags = [rstr(rng, rng.randrange(1, 8)) for _ in range(rng.randrange(1, 6))]
+        return [{"name": rstr(rng, 5), "tags": tags, "n": i} for i in range(rng.randrange(2, 7))]
+    if style == 3:
+        # a long (wrapped) list at several nesting offsets
+        big = wrapped_list(rng, mode, rng.choice([0, 2, 4]), wlim, llim)
+        return rng.choice([[big, big], {"a": big, "b": {"c": big}}, [[big], big, {"k": [big]}], {"x": [big, [big]]}])
+    if style == 4:
+        # a list / dict whose one-line length is at the limit: one line at one offset, several lines at another
+        total = llim - rng.randrange(0, 9)
+        one = simple_list_of_len(rng, total, mode) if rng.random() < 0.5 else \
+            (simple_dict_of_len(rng, dlim - rng.randrange(0, 9), mode, True) or [1, 2])
+        return rng.choice([[one, [one], [[one]], [[[one]]]], {"a": one, "b": {"c": {"d": one}}}, [[[[one]]], one]])
+    if style == 5:
+        # the same object next to an equal but distinct one
+        a = rvalue(rng, 2, json_ok)
+        if not isinstance(a, (list, dict)) or not a:
+            a = [1, {"k": [2]}]
+        b = dec(enc(a))
+        return rng.choice([[a, b, a], {"p": a, "q": b, "r": a}, [b, [a, [b, a]]]])
+    if style == 6:
+        # child and grandchild
+        c = rvalue(rng, 2, json_ok)
+        if not isinstance(c, (list, dict)) or not c:
+            c = {"z": [0]}
+        return rng.choice([[c, [c]], {"a": c, "b": [c, {"c": c}]}, [[c, c], [c, c]]])
+    pool = []
+    v = rvalue_dag(rng, rng.randrange(2, 6), json_ok, pool)
+    return v if isinstance(v, (list, dict)) and v else [v, pool and pool[0], pool and pool[0]]
+
+
 def gen_cases(rng, tier):
     big = tier == "thorough"
     dlim, llim, wlim = _limits()
@@ -468,7 +586,12 @@ def gen_cases(rng, tier):
 
     def add(kind, v, mode=None):
         for m in ([mode] if mode else ["json", "py"]):
-            cases.append({"kind": kind, "mode": m, "v": enc(v)})
+            c = {"kind": kind, "mode": m, "v": enc(v)}
+            # the rendering of [v, {"k": v}] is compared with the model on every case of the quick tier and on
+            # every 4th case of the thorough tier (it triples the Coq term); the oracle reads it back on all
+            if big and len(cases) % 4:
+                c["wm"] = 0
+            cases.append(c)
 
     # top-level simple values and tiny containers
     for v in [None, True, False, 0, -1, 10 ** 30, 1.5, -0.0, 1e16, "", "abc", "é中", [], {}, [[]], [{}], {"a": []},
@@ -517,6 +640,14 @@ def gen_cases(rng, tier):
         if rng.random() < 0.4 and d:
             d[next(iter(d))] = [1, [2]]
         add("long-dict", nest(rng, d, rng.randrange(0, 4), json_ok), m)
+    # values in which one list / dict object occurs several times
+    fixed_inner = [0, 0, 0]
+    fixed_dflt = {"colour": None, "size": 1}
+    for v in [[fixed_inner] * 3, {"a": fixed_dflt, "b": fixed_dflt}, [fixed_dflt, {"again": fixed_dflt}, fixed_inner, [fixed_inner]]]:
+        add("shared", v)
+    for _ in range(2500 if big else 150):
+        m = rng.choice(["json", "py"])
+        add("shared", shared_value(rng, m, dlim, llim, wlim), m)
     # random nestings
     for _ in range(12000 if big else 420):
         m = rng.choice(["json", "py"])
@@ -539,30 +670,125 @@ def kind(case):
 _PRINTERS = {}
 
 
+def twice(v):
+    """a value that contains the object v twice, at two nesting offsets (C11.Run.twice)"""
+    return [v, {"k": v}]
+
+
+def _interleave(its):
+    """its: [(iterator, sink or None)]; one line from each live iterator in turn, the first one a line ahead;
+    the line OBJECTS are kept (sink) and converted only after every iterator is exhausted"""
+    live = list(its)
+    if live:
+        it, sink = live[0]
+        try:
+            x = next(it)
+            if sink is not None:
+                sink.append(x)
+        except StopIteration:
+            live.pop(0)
+    while live:
+        for pair in list(live):
+            it, sink = pair
+            try:
+                x = next(it)
+            except StopIteration:
+                live.remove(pair)
+                continue
+            if sink is not None:
+                sink.append(x)
+
+
 def impl_run(case):
     from ak.ppobj import PrettyPrinter
     v = dec(case["v"])
+    before = enc(v)
+    views = []   # (name, [line text])   every one of them must be the lines of the no-colour rendering of v
+    texts = []   # (name, text)          every one of them must be the whole no-colour text of v
+    wviews = []  # the same for twice(v)
     try:
         # one printer object per mode for the whole worker process, and a coloured rendering of
         # the same value consumed first: what the no-colour output is must not depend on what the
         # printer rendered before (a memory of earlier, coloured renderings is how caches go wrong)
-        pp = _PRINTERS.get(case["mode"])
-        if pp is None:
-            pp = _PRINTERS[case["mode"]] = PrettyPrinter(fmt_json=(case["mode"] == "json"))
+        for m in ("json", "py"):
+            if m not in _PRINTERS:
+                _PRINTERS[m] = PrettyPrinter(fmt_json=(m == "json"))
+        pp = _PRINTERS[case["mode"]]
+        po = _PRINTERS["py" if case["mode"] == "json" else "json"]   # the printer of the other mode
+        early = pp(v, no_color=True)   # made before anything else is rendered, consumed last
         coloured = pp(v)
         str(coloured)
         for _ in coloured:
             pass
+        str(po(v, no_color=True))      # what the other printer renders is its own business
+        # (1) str() first, then the lines, each converted as soon as it is yielded
         r = pp(v, no_color=True)
         # what a user gets from the no-colour result is str(): the text as printed (plain_text()
         # would hide an escape sequence that leaked into the no-colour output)
-        text = str(r)
-        lines = [str(ln) for ln in r]
+        texts.append(("str", str(r)))
+        views.append(("converted-while-iterating", [str(ln) for ln in r]))
+        texts.append(("str-again", str(r)))
+        texts.append(("plain_text", r.plain_text()))
+        copy = r.get_ch_text()
+        texts.append(("get_ch_text", str(copy)))
+        # what the user does with the copy / with sums must not reach the result object
+        copy += "#"
+        _ = (r + "#", "#" + r)
+        texts.append(("str-after-extending-a-copy", str(r)))
+        # (2) the lines collected first (a user may keep the line objects), converted afterwards; str() after
+        #     the iteration; a second iteration of the same result; the first collection once more
+        r2 = pp(v, no_color=True)
+        kept = list(r2)
+        views.append(("collected-then-converted", [str(x) for x in kept]))
+        views.append(("collected-plain_text", [x.plain_text() for x in kept]))
+        texts.append(("str-after-iteration", str(r2)))
+        kept2 = list(r2)
+        _ = [x + "#" for x in kept]
+        views.append(("second-iteration", [str(x) for x in kept2]))
+        views.append(("first-collection-after-second-iteration", [str(x) for x in kept]))
+        # (3) results of the one printer consumed interleaved: two no-colour results of v, a coloured one,
+        #     and the no-colour result of a value that contains the object v twice
+        w = twice(v)
+        la, lb, lw = [], [], []
+        rw = pp(w, no_color=True)
+        _interleave([(iter(pp(v, no_color=True)), la), (iter(rw), lw), (iter(pp(v)), None),
+                     (iter(pp(v, no_color=True)), lb), (iter(pp(w)), None), (iter(po(w, no_color=True)), None)])
+        views.append(("interleaved-first", [str(x) for x in la]))
+        views.append(("interleaved-second", [str(x) for x in lb]))
+        wviews.append(("interleaved", [str(x) for x in lw]))
+        wviews.append(("str-split", str(rw).split("\n")))
+        wviews.append(("collected", [str(x) for x in list(pp(w, no_color=True))]))
+        # (4) a printer of its own
+        fresh = PrettyPrinter(fmt_json=(case["mode"] == "json"))
+        views.append(("fresh-printer", [str(x) for x in list(fresh(v, no_color=True))]))
+        texts.append(("fresh-printer", str(fresh(v, no_color=True))))
+        # (5) the result made at the very beginning, consumed after the printer rendered all of the above
+        views.append(("early-result-consumed-last", [str(x) for x in list(early)]))
+        texts.append(("early-result-consumed-last", str(early)))
     except Exception as e:
-        return {"exc": SX.exc_name(e)}
-    if not isinstance(text, str) or not all(isinstance(x, str) for x in lines):
-        return {"exc": "NotAString"}
-    return {"text": text, "lines": lines}
+        return {"exc": SX.exc_name(e), "stage": len(views) + len(texts) + len(wviews)}
+    for _n, t in texts:
+        if not isinstance(t, str):
+            return {"exc": "NotAString"}
+    for _n, ls in views + wviews:
+        if not all(isinstance(x, str) for x in ls):
+            return {"exc": "NotAString"}
+    lines = views[0][1]
+    text = texts[0][1]
+    obs = {"text": text, "lines": lines, "wlines": wviews[0][1]}
+    # views / texts equal to the first one are not repeated (what differs is kept, with its name)
+    other = {n: ls for n, ls in views[1:] if ls != lines}
+    if other:
+        obs["views"] = other
+    other = {n: t for n, t in texts[1:] if t != text}
+    if other:
+        obs["texts"] = other
+    other = {n: ls for n, ls in wviews[1:] if ls != wviews[0][1]}
+    if other:
+        obs["wviews"] = other
+    if enc(v) != before:
+        obs["input_changed"] = 1
+    return obs
 
 
 # ------------------------------------------------------------------ model side
@@ -597,10 +823,44 @@ def coq_value(e):
     raise ValueError(t)
 
 
+def _coq_lines(lines):
+    return "[" + "; ".join(SX.cstr(ln) for ln in lines) + "]" if lines else "(@nil (list Z))"
+
+
+def _coq_views(first, others):
+    """every distinct view once (impl_run dropped those equal to the first); fixed order"""
+    vs = [first] + [others[n] for n in sorted(others)]
+    return "[" + "; ".join(_coq_lines(ls) for ls in vs) + "]"
+
+
+def wsplit_ok(case):
+    """may the text of twice(v) be split at newlines to get its lines back (no newline inside a string)"""
+    def ok(e):
+        t, a = e
+        if t == "s":
+            return "\n" not in a
+        if t == "l":
+            return all(ok(x) for x in a)
+        if t == "d":
+            return all(ok(k) and ok(x) for k, x in a)
+        return True
+    return ok(case["v"])
+
+
+def _wothers(case, obs):
+    o = dict(obs.get("wviews") or {})
+    if not wsplit_ok(case):
+        o.pop("str-split", None)
+    return o
+
+
 def coq_case(case, obs):
-    lines = obs.get("lines") or []
-    impl = "[" + "; ".join(SX.cstr(ln) for ln in lines) + "]" if lines else "(@nil (list Z))"
-    return f"PP {'Json' if case['mode'] == 'json' else 'Py'} ({coq_value(case['v'])}) {impl}"
+    if "lines" not in obs:
+        views = wviews = "[]"
+    else:
+        views = _coq_views(obs["lines"], obs.get("views") or {})
+        wviews = _coq_views(obs["wlines"], _wothers(case, obs)) if case.get("wm", 1) else "[]"
+    return f"PP {'Json' if case['mode'] == 'json' else 'Py'} ({coq_value(expand(case['v']))}) {views} {wviews}"
 
 
 def in_model(case, obs):
@@ -611,7 +871,7 @@ def in_model(case, obs):
         if t == "d":
             return all(k[0] in "isk" and ok(x) for k, x in a)
         return True
-    return ok(case["v"])
+    return ok(expand(case["v"]))
 
 
 def expected_sx(case, obs):
@@ -619,7 +879,7 @@ def expected_sx(case, obs):
         return SX.dumps(SX.err(obs["exc"]))
     if "__hang__" in obs:
         return SX.dumps(SX.err("Hang"))
-    return SX.dumps([1])   # the model's lines equal obs["lines"] (compared inside Coq, see C11/Run.v)
+    return SX.dumps([1])   # every view of the lines equals the model's lines (compared inside Coq, see C11/Run.v)
 
 
 # ------------------------------------------------------------------ oracle (statement, independently)
@@ -684,6 +944,15 @@ def keys_unsorted(parsed):
     return None
 
 
+def _first_line_diff(a, b):
+    for i in range(max(len(a), len(b))):
+        x = a[i] if i < len(a) else None
+        y = b[i] if i < len(b) else None
+        if x != y:
+            return f"line {i}: {y!r:.120} instead of {x!r:.120} ({len(b)} lines instead of {len(a)})"
+    return "no difference"
+
+
 def oracle(case, obs):
     if "__hang__" in obs:
         return [("hang", "pretty printing did not return")]
@@ -695,6 +964,21 @@ def oracle(case, obs):
     text = obs["text"]
     if "\n".join(obs["lines"]) != text:
         out.append(("lines-differ", f"line iteration does not give the whole text for {v!r:.300}"))
+    # the same rendering obtained in another way / order must be the same lines and the same text
+    bad = dict(obs.get("views") or {})
+    wbad = {"[v, {'k': v}]: " + n: ls for n, ls in (obs.get("wviews") or {}).items()
+            if n != "str-split" or wsplit_ok(case)}
+    if bad or wbad:
+        n = sorted(bad)[0] if bad else sorted(wbad)[0]
+        d = _first_line_diff(obs["lines"], bad[n]) if bad else _first_line_diff(obs["wlines"], wbad[n])
+        out.append(("view-differs", f"the lines of the no-colour result depend on how they are consumed: "
+                    f"{sorted(bad) + sorted(wbad)} differ from the lines converted while iterating; '{n}': {d}; value {v!r:.300}"))
+    if obs.get("texts"):
+        n = sorted(obs["texts"])[0]
+        out.append(("text-differs", f"the text of the no-colour result depends on how it is obtained: {sorted(obs['texts'])} "
+                    f"differ from str(); '{n}' gives {obs['texts'][n]!r:.300} instead of {text!r:.300}; value {v!r:.300}"))
+    if obs.get("input_changed"):
+        out.append(("input-mutated", f"pretty printing changed the value it was given: {v!r:.300}"))
     if not readable(v, mode):
         return out
     try:
@@ -708,6 +992,18 @@ def oracle(case, obs):
         bad = keys_unsorted(parsed)
         if bad is not None:
             out.append(("keys-unsorted", f"dict keys appear as {bad!r:.200} in the text of {v!r:.300}"))
+    if out:
+        return out
+    # a value that contains the object v twice (rendered interleaved with v) reads back as that value
+    w = twice(v)
+    wtext = "\n".join(obs["wlines"])
+    try:
+        parsed = json.loads(wtext) if mode == "json" else ast.literal_eval(wtext)
+    except Exception as e:
+        return [("shared-unparsable-" + mode, f"{mode} text of [v, {{'k': v}}] (one object v = {v!r:.300} twice) does not parse: "
+                 f"{type(e).__name__}: {e!s:.120}; text {wtext!r:.400}")]
+    if not same(parsed, w):
+        return [("shared-value-differs-" + mode, f"{mode} text of [v, {{'k': v}}] (one object v = {v!r:.300} twice) reads back as {parsed!r:.300}")]
     return out
 
 
@@ -775,8 +1071,15 @@ LEVEL_TEXT = ("Full (about the model, unbounded values / offsets / both modes): 
               "distinct sort ranks) re-proved against the constants re-read from the source on every run. "
               "Partial / tested only: atoms are opaque in the reader, so 'str(number) and the literals are read back "
               "as the same number / constant' and the injectivity of tree_of are trusted to json.loads / "
-              "ast.literal_eval and checked by the oracle on every generated case (~980 quick, ~26000 thorough); "
-              "float dict keys and non-JSON objects are outside the model (oracle only).")
+              "ast.literal_eval and checked by the oracle on every generated case (~1140 quick, ~22700 thorough); "
+              "float dict keys and non-JSON objects are outside the model (oracle only).  "
+              "Tested only (the model is a pure function of mode and value, so it has nothing to say about object "
+              "identity or consumption order): that the implementation's lines are the same however the result is "
+              "consumed (collected before use, iterated twice, interleaved with other results of the same printer, "
+              "after coloured / other renderings, late) and that a value containing one object several times prints as "
+              "its expanded tree -- every such view is compared with gen_lines in C11.Run (quick: also the rendering "
+              "of [v, {'k': v}] on every case; thorough: on every 4th) and by the oracle (view-differs, text-differs, "
+              "input-mutated, shared-unparsable-*, shared-value-differs-*).")
 LEVEL_NOTE = ("Trusted: Coq kernel + vm_compute; the hand model's fidelity (checked by correspondence on every case, not "
               "proved); json.loads/ast.literal_eval agreeing with the reader C11.Reader on punctuation/strings and "
               "interpreting atoms; the ast extractor and harness. Print Assumptions: closed under the global context "
